@@ -368,6 +368,15 @@ def discharge(P, ctxs, ob):
             if g.le(an, cn, -ao):
                 return True, "drain(..n) with n <= len by dominating condition", detail
         return False, "drain range not bounded", detail
+    if kind == "split" and "[T]>::split_at" in name and len(args) == 2:
+        cont = args[0]
+        cn = ("len", A.sid(cont))
+        ax.struct_len(cont, cn, g, 0)
+        an, ao = ax.lin(args[1], g)
+        detail = "%s.split_at(%s)" % (srcname(b, t["args"][0]), srcname(b, t["args"][1]))
+        if g.le(an, cn, -ao):
+            return True, "split point within the length by dominating conditions", detail
+        return False, "split point not bounded by the length", detail
     if kind == "chunks":
         k = T.fold_int(args[1]) if len(args) > 1 else None
         detail = "%s(%s)" % (T.short(name), k)
@@ -688,8 +697,15 @@ def rule_sites(ctx):
     P = ctx.program
     reviewed = _load("c01_reviewed_sites.json")["sites"]
     rev = {}
+
+    def encl(fk):
+        """the named function a site belongs to: `crate/Type::method`, whether the site sits in the function body or in a closure it
+        creates (a loop body rewritten as `.map(|..| ..)` keeps its reviewed sites)"""
+        crate_, rest = fk.split("/", 1)
+        rest = rest.split("::{closure#")[0]
+        return crate_ + "/" + "::".join(rest.split("::")[-2:])
     for e in reviewed:
-        rev.setdefault((e["fn"], e["kind"]), []).append(e)
+        rev.setdefault((encl(e["fn"]), e["kind"]), []).append(e)
     used = set()
     ctxs = {}
     counts = {"assert": 0, "call": 0, "ubcheck": 0}
@@ -716,7 +732,7 @@ def rule_sites(ctx):
             continue
         # reviewed?
         hit = None
-        for e in rev.get((fk, kind), []):
+        for e in rev.get((encl(fk), kind), []):
             if e["match"] in detail:
                 hit = e
                 break
